@@ -58,9 +58,11 @@ type wrapSrv struct {
 	inner   httpserver.HttpServer
 	cfg     int
 	lasDone atomic.Bool // ListenAndServe has returned: this server holds no listener any more
+	lasCall atomic.Bool // ListenAndServe has been entered
 }
 
 func (w *wrapSrv) ListenAndServe() error {
+	w.lasCall.Store(true)
 	err := w.inner.ListenAndServe()
 	w.lasDone.Store(true)
 	if err == nil || errors.Is(err, http.ErrServerClosed) {
@@ -290,6 +292,17 @@ func (h *hist) realCfg(c cfgSpec) *httpserver.Config {
 func (h *hist) creator(addr string, handler http.Handler, cfg *httpserver.Config) httpserver.HttpServer {
 	got := cfgSpec{Addr: h.canon[addr], Drain: int64(cfg.DrainTimeout), Read: int64(cfg.ReadTimeout),
 		Write: int64(cfg.WriteTimeout), Idle: int64(cfg.IdleTimeout)}
+	var live httpserver.HttpServer
+	if h.sc.Kind != "fake" {
+		// the server that will really serve: its own address and timeouts are what counts ("serving exactly the
+		// new configuration"), not only the Config the hook is handed
+		live = httpserver.DefaultServerCreator(addr, handler, cfg)
+		if hs, ok := live.(*http.Server); ok {
+			got.Addr = h.canon[hs.Addr]
+			got.Read, got.Write, got.Idle = int64(hs.ReadTimeout), int64(hs.WriteTimeout), int64(hs.IdleTimeout)
+			handler = hs.Handler
+		}
+	}
 	if got.Addr == "" {
 		got.Addr = "?" + addr
 	}
@@ -313,7 +326,7 @@ func (h *hist) creator(addr string, handler http.Handler, cfg *httpserver.Config
 		}
 		w.inner = f
 	} else {
-		w.inner = httpserver.DefaultServerCreator(addr, handler, cfg)
+		w.inner = live
 	}
 	h.servers = append(h.servers, w)
 	h.mu.Unlock()
@@ -554,8 +567,35 @@ func (h *hist) variant(kind string, r *prng.R) (string, cfgSpec) {
 		default:
 			c.Routes = c.Routes[:1]
 		}
-	case "repath":
-		c.Routes[0].Path = map[string]string{"/r1": "/r4", "/r4": "/r1", "/r2": "/r4", "/r3": "/r4"}[c.Routes[0].Path]
+	case "swap": // two routes trade their paths: same names, same paths, different pairing
+		if len(c.Routes) >= 2 {
+			c.Routes[0].Path, c.Routes[1].Path = c.Routes[1].Path, c.Routes[0].Path
+		} else {
+			c.Routes = append(c.Routes, rt{"n2", "/r2"})
+		}
+	case "zeroto": // timeouts switched off
+		if c.Read == 0 && c.Write == 0 && c.Idle == 0 {
+			c.Read, c.Write, c.Idle = int64(5*time.Second), int64(5*time.Second), int64(30*time.Second)
+		} else {
+			c.Read, c.Write, c.Idle = 0, 0, 0
+		}
+	case "zeroone": // one timeout switched off
+		if c.Write == 0 {
+			c.Write = int64(5 * time.Second)
+		} else {
+			c.Write = 0
+		}
+	case "repath": // the first route moves to a path no route uses
+		used := map[string]bool{}
+		for _, r := range c.Routes {
+			used[r.Path] = true
+		}
+		for _, p := range pathUniverse {
+			if !used[p] {
+				c.Routes[0].Path = p
+				break
+			}
+		}
 	case "timeout":
 		c.Read += int64(time.Second)
 	case "idle":
@@ -736,6 +776,37 @@ func (h *hist) run() {
 					p.Release()
 				}
 			}
+			if p == nil && strings.HasPrefix(s.During, "probe-") {
+				// no log record lies inside the readiness probe's wait: act 25 ms after the NEW server's ListenAndServe was
+				// entered, i.e. while it listens and the probe waits for its first 100 ms tick
+				deadline := time.Now().Add(2 * time.Second)
+				for time.Now().Before(deadline) {
+					h.mu.Lock()
+					started := len(h.servers) > nSrvBefore && h.servers[len(h.servers)-1].lasCall.Load()
+					h.mu.Unlock()
+					if started {
+						break
+					}
+					select {
+					case <-d:
+						deadline = time.Now()
+					default:
+					}
+					time.Sleep(200 * time.Microsecond)
+				}
+				select {
+				case <-d: // the reload did not boot anything (no-op or failed early)
+				default:
+					time.Sleep(25 * time.Millisecond)
+					h.stopIssued, interfered = true, true
+					if s.During == "probe-stop" {
+						h.doStop()
+					} else {
+						h.rec.Emit("XX")
+						cancel()
+					}
+				}
+			}
 			if !waitCh(d, 12*time.Second) {
 				hung = true
 			}
@@ -914,6 +985,11 @@ func fixedScripts() []hscript {
 		{Name: "cancel-before-run", Steps: []hstep{can, run}},
 		{Name: "unchanged", Steps: []hstep{run, rl("same"), rl("perm"), stop}},
 		{Name: "each-field", Steps: []hstep{run, rl("addr"), rl("timeout"), rl("routes"), rl("drain"), rl("idle"), rl("write"), can}},
+		{Name: "stop-in-probe-window", Steps: []hstep{run, {Op: "reload", Cfg: "routes", During: "probe-stop"}}},
+		{Name: "stop-in-probe-window-addr", Steps: []hstep{run, rl("timeout"), {Op: "reload", Cfg: "addr", During: "probe-stop"}}},
+		{Name: "cancel-in-probe-window", Steps: []hstep{run, {Op: "reload", Cfg: "addr", During: "probe-cancel"}}},
+		{Name: "swap-pairing", Steps: []hstep{run, rl("swap"), rl("same"), rl("swap"), rl("perm"), stop}},
+		{Name: "zero-timeouts", Steps: []hstep{run, rl("zeroto"), rl("same"), rl("zeroone"), rl("zeroto"), can}},
 		{Name: "repath-back", Steps: []hstep{run, rl("repath"), rl("same"), rl("back"), rl("routes"), rl("routes"), rl("routes"), stop}},
 		{Name: "cb-error", Steps: []hstep{run, rl("err"), rl("addr"), stop}},
 		{Name: "cb-nil", Steps: []hstep{run, rl("same"), rl("nil"), rl("same"), can}},
@@ -955,7 +1031,8 @@ func randomScript(r *prng.R, i int) hscript {
 	if r.Chance(1, 3) {
 		s.Kind = "fake"
 	}
-	kinds := []string{"same", "perm", "addr", "routes", "repath", "timeout", "drain", "idle", "write", "back", "err", "nil", "busy", "addr", "routes", "same"}
+	kinds := []string{"same", "perm", "addr", "routes", "repath", "timeout", "drain", "idle", "write", "back", "err", "nil", "busy", "addr", "routes", "same",
+		"swap", "zeroto", "zeroone", "swap"}
 	switch r.Intn(8) {
 	case 0:
 		s.Steps = append(s.Steps, hstep{Op: "stop"})
@@ -975,6 +1052,9 @@ func randomScript(r *prng.R, i int) hscript {
 			if s.Kind == "fake" && st.During == "slowstop" {
 				st.During = "stop"
 			}
+		}
+		if st.Park == "" && r.Chance(1, 8) {
+			st.During = prng.Pick(r, []string{"probe-stop", "probe-cancel"})
 		}
 		s.Steps = append(s.Steps, st)
 		if st.Cfg == "busy" && r.Bool() {
